@@ -56,11 +56,9 @@ CHECKS = {
              text="Bounded model checking of Sm2PublicKey::verify/verify_raw compiled from /repo: for every signature length 0..130 (quick: 12 boundary lengths) and all contents, acceptance implies the GB/T 32918.2 conditions and the [s]G+[t]P data-flow; panics are failures.",
              note="EC layer and SM3 are arbitrary logging stubs (their correctness is C11/C01); fp_from_mont returns a value < p; CBMC/CaDiCaL, Kani's MIR translation.", design="§2 C04"),
 }
-]
 CHECKS["C19"] = dict(level="model_checking", technique="symbolic execution of the MIR of the SM2 encoders/decoders over bit-vectors; third-party DER/hex/SPKI crates summarised at their API; field/group layers as z3 uninterpreted functions",
              text="encrypt_asn1 writes SEQUENCE{INTEGER C1.x, INTEGER C1.y, OCTET STRING C3, OCTET STRING C2} from the right bytes of the raw ciphertext for both component orders; decrypt_asn1 left-pads shortened INTEGERs, rejects oversize fields and parser errors without panicking and hands 04||x||y||... to decrypt; Point::from_byte accepts only 33/65-byte encodings and reads x,y from the right bytes; Sm2PublicKey::new / from_hex_string / SPKI TryFrom accept only points that satisfy the curve check and never panic; private key bytes round-trip and only 32-byte scalars in [1,n-2] are accepted.",
              note="byte-level DER by yasna/num-bigint and whole PKCS#8/SPKI/PEM documents (pkcs8, der, sec1, base64ct), OpenSSL interoperability: OUTSIDE (cut at the API); compressed-point square-root/parity argument only as data-flow.", design="§2 C19", engine="mirsmt")
-_unused = [
 NA_REASON = "check not built yet in this session (see DESIGN.md build order); will be claimed once its check passes on the unchanged tree"
 def main():
     checks = []
